@@ -1,3 +1,5 @@
 import GqlProofs.Props.C01
 import GqlProofs.Props.C03
 import GqlProofs.Props.C04
+import GqlProofs.Props.C12
+import GqlProofs.Props.C13
